@@ -40,6 +40,15 @@ def validate_structure(store: StoreLike) -> None:
     edges_group = expect_group(graph_group, _path.EDGES)
     _validate_edges_group(edges_group, metadata)
 
+    # Node and edge ids must have the same dtype
+    node_ids = expect_array(nodes_group, _path.IDS, _path.NODES)
+    edge_ids = expect_array(edges_group, _path.IDS, _path.EDGES)
+    if np.dtype(node_ids.dtype) != np.dtype(edge_ids.dtype):
+        raise ValueError(
+            f"Edge ids must have the same dtype as node ids, received {edge_ids.dtype} "
+            f"and {node_ids.dtype}"
+        )
+
     # Metadata based validation
     if metadata.axes is not None:
         _validate_axes_structure(graph_group, metadata)
@@ -97,12 +106,17 @@ def _validate_props_group(
                 f"must be a zarr group. Got {type(prop_group)}"
             )
 
-        arrays = set(prop_group.array_keys())
+        # any member with a reserved name must be the expected array (readers look them up by name)
+        arrays = set(prop_group.keys())
         if _path.VALUES not in arrays:
             raise ValueError(
                 f"{parent_key} property group {prop_name!r} must have a {_path.VALUES!r} array"
             )
         val_arr = expect_array(prop_group, _path.VALUES)
+        if val_arr.ndim < 1:
+            raise ValueError(
+                f"{parent_key} property {prop_name!r} {_path.VALUES} must have at least one dimension"
+            )
 
         # Check varlength cases
         if prop_metadata.varlength:
@@ -139,6 +153,11 @@ def _validate_props_group(
 
         if _path.MISSING in arrays:
             missing_arr = expect_array(prop_group, _path.MISSING)
+            if missing_arr.ndim != 1:
+                raise ValueError(
+                    f"{parent_key} property {prop_name!r} {_path.MISSING} mask must be 1D, "
+                    f"received shape {missing_arr.shape}"
+                )
             miss_len = missing_arr.shape[0]
             if miss_len != expected_len:
                 raise ValueError(
@@ -160,7 +179,13 @@ def _validate_nodes_group(nodes_group: zarr.Group, metadata: GeffMetadata) -> No
     if not np.issubdtype(np.dtype(node_ids.dtype), np.integer):
         raise ValueError("Node ids must have an integer dtype")
 
+    if node_ids.ndim != 1:
+        raise ValueError(f"Node ids must be 1d, received shape {node_ids.shape}")
+
     id_len = node_ids.shape[0]
+    # The props group is optional as long as the metadata does not list any node property
+    if nodes_group.get(_path.PROPS) is None and len(metadata.node_props_metadata) == 0:
+        return
     node_props = expect_group(nodes_group, _path.PROPS, _path.NODES)
     _validate_props_group(node_props, id_len, "Node", metadata.node_props_metadata)
 
@@ -180,6 +205,11 @@ def _validate_edges_group(edges_group: zarr.Group, metadata: GeffMetadata) -> No
     edge_id_len = edges_ids.shape[0]
     edge_props = edges_group.get(_path.PROPS)
     if edge_props is None:
+        if len(metadata.edge_props_metadata) > 0:
+            raise ValueError(
+                f"{_path.EDGES!r} group must contain a group named {_path.PROPS!r}: "
+                "the metadata lists edge properties"
+            )
         return
     if not isinstance(edge_props, zarr.Group):
         raise ValueError(
